@@ -258,15 +258,66 @@ func c15(r *core.Report) {
 		}
 		fam := ef[0]
 		enc, dec := ecalls[0], dcalls[0]
+		// the header buffer belongs to this one message: allocated by this call and handed to nothing
+		// but the encoder (a pooled or shared buffer can be overwritten by the next framing call while
+		// the first message is still waiting to be serialised: it is then delivered to the other channel)
+		{
+			root := headerRoot(enc)
+			owned := false
+			why := "the header buffer is not allocated by this call"
+			switch root.(type) {
+			case *ssa.Alloc, *ssa.MakeSlice:
+				owned = true
+				seen := map[ssa.Value]bool{}
+				var walk func(v ssa.Value)
+				walk = func(v ssa.Value) {
+					if seen[v] || v.Referrers() == nil {
+						return
+					}
+					seen[v] = true
+					for _, ref := range *v.Referrers() {
+						switch x := ref.(type) {
+						case *ssa.Slice:
+							walk(x)
+						case *ssa.Phi:
+							walk(x)
+						case ssa.CallInstruction:
+							cc := x.Common()
+							if _, isB := cc.Value.(*ssa.Builtin); isB {
+								if v2, ok := x.(ssa.Value); ok && isByteSliceT(v2.Type()) {
+									walk(v2) // append(header, ...) keeps being the header
+								}
+								continue
+							}
+							if _, ok := codecFamily[core.CalleeName(cc)]; ok {
+								continue
+							}
+							owned = false
+							why = "the header buffer is handed to " + core.CalleeName(cc) + " (deferred or direct): it can be reused for another message"
+						case *ssa.Store:
+							if x.Val == v {
+								if _, local := x.Addr.(*ssa.Alloc); !local {
+									if ia, isIA := x.Addr.(*ssa.IndexAddr); !isIA || core.CellOfAddr(ia.X) == nil {
+										owned = false
+										why = "the header buffer is stored outside this call"
+									}
+								}
+							}
+						}
+					}
+				}
+				walk(root)
+			}
+			r.Check(owned, "C15-PAIR", c+" header owned", p.Pos(mf.Pos()), "the header buffer is allocated per call and handed only to the encoder", why+": the channel id of a framed but not yet serialised message can change, so it is delivered to a swarm opened for a different channel")
+		}
 		if w, fixed := familyWidth[fam]; fixed {
 			// header array length
+			// the buffer the encoder writes into is a slice of a [w]byte array (wherever it comes from)
 			arrOK := false
-			for _, in := range core.AllInstrs(mf) {
-				if a, ok := in.(*ssa.Alloc); ok {
-					if at, ok := a.Type().(*types.Pointer).Elem().Underlying().(*types.Array); ok {
-						if bt, ok := at.Elem().Underlying().(*types.Basic); ok && bt.Kind() == types.Byte {
-							arrOK = at.Len() == w
-						}
+			if root := headerRoot(enc); root != nil {
+				if pt, ok := root.Type().Underlying().(*types.Pointer); ok {
+					if at, ok := pt.Elem().Underlying().(*types.Array); ok {
+						arrOK = at.Len() == w
 					}
 				}
 			}
@@ -514,4 +565,38 @@ func singleByteFastPath(mf *ssa.Function, ret *ssa.Return) bool {
 		return true
 	})
 	return ok
+}
+
+// headerRoot: the array/slice allocation behind the []byte argument of an encoder call.
+func headerRoot(enc *ssa.Call) ssa.Value {
+	for _, a := range enc.Call.Args {
+		if !isByteSliceT(a.Type()) {
+			continue
+		}
+		v := a
+		for i := 0; i < 8; i++ {
+			switch x := v.(type) {
+			case *ssa.Slice:
+				v = x.X
+				continue
+			case *ssa.UnOp:
+				if t := core.Through(x); t != v {
+					v = t
+					continue
+				}
+			}
+			break
+		}
+		return v
+	}
+	return nil
+}
+
+func isByteSliceT(t types.Type) bool {
+	s, ok := t.Underlying().(*types.Slice)
+	if !ok {
+		return false
+	}
+	b, ok := s.Elem().Underlying().(*types.Basic)
+	return ok && b.Kind() == types.Byte
 }
